@@ -217,20 +217,24 @@ def unit_guards(u, rec):
         for C in (D + 1, D + 2):
             expect_value_error(rec, lambda C=C: cvc(jnp.ones((C,) + DO.shape[1:], dtype=complex)), "C20/guard/conservative_convection_channels",
                                "conservative multi-channel convection accepted C != D", D=D, C=C)
-        from exponax.stepper.reaction._gray_scott import GrayScottNonlinearFun
-
-        gsn = GrayScottNonlinearFun(D, N, dealiasing_fraction=0.5, feed_rate=0.03, kill_rate=0.055)
-        for C in (1, 3):
-            expect_value_error(rec, lambda C=C: gsn(jnp.ones((C,) + DO.shape[1:], dtype=complex)), "C20/guard/gray_scott_channels", "Gray-Scott reaction term accepted C != 2", D=D, C=C)
-        rec.check(gsn(jnp.ones((2,) + DO.shape[1:], dtype=complex)).shape == (2,) + DO.shape[1:], "C20/guard/gray_scott_valid_rejected", "Gray-Scott reaction term rejects / reshapes a valid state", D=D)
-        # a Gaussian blob built for D dimensions refuses a grid of another dimension
-        from exponax.ic._gaussian_blob import GaussianBlob
-
-        blob = GaussianBlob(jnp.full((D,), 0.5), 0.05 * jnp.eye(D))
-        for D2 in (1, 2, 3):
-            if D2 != D:
-                expect_value_error(rec, lambda D2=D2: blob(ex.make_grid(D2, 1.0, 6)), "C20/guard/gaussian_blob_dimension", "Gaussian blob evaluated on a grid of another dimension", D=D, grid_D=D2)
-        rec.check(blob(ex.make_grid(D, 1.0, 6)).shape == (1,) + (6,) * D, "C20/guard/gaussian_blob_valid_rejected", "Gaussian blob rejects / reshapes its own dimension", D=D)
+        try:  # neither class is re-exported: if a refactor moves them, these two guard checks are skipped (not a violation)
+            from exponax.ic._gaussian_blob import GaussianBlob
+            from exponax.stepper.reaction._gray_scott import GrayScottNonlinearFun
+        except ImportError:
+            GaussianBlob = GrayScottNonlinearFun = None
+            rec.dim("skipped", "private Gray-Scott term / Gaussian blob classes not importable")
+        if GrayScottNonlinearFun is not None:
+            gsn = GrayScottNonlinearFun(D, N, dealiasing_fraction=0.5, feed_rate=0.03, kill_rate=0.055)
+            for C in (1, 3):
+                expect_value_error(rec, lambda C=C: gsn(jnp.ones((C,) + DO.shape[1:], dtype=complex)), "C20/guard/gray_scott_channels", "Gray-Scott reaction term accepted C != 2", D=D, C=C)
+            rec.check(gsn(jnp.ones((2,) + DO.shape[1:], dtype=complex)).shape == (2,) + DO.shape[1:], "C20/guard/gray_scott_valid_rejected", "Gray-Scott reaction term rejects / reshapes a valid state", D=D)
+        if GaussianBlob is not None:
+            # a Gaussian blob built for D dimensions refuses a grid of another dimension
+            blob = GaussianBlob(jnp.full((D,), 0.5), 0.05 * jnp.eye(D))
+            for D2 in (1, 2, 3):
+                if D2 != D:
+                    expect_value_error(rec, lambda D2=D2: blob(ex.make_grid(D2, 1.0, 6)), "C20/guard/gaussian_blob_dimension", "Gaussian blob evaluated on a grid of another dimension", D=D, grid_D=D2)
+            rec.check(blob(ex.make_grid(D, 1.0, 6)).shape == (1,) + (6,) * D, "C20/guard/gaussian_blob_valid_rejected", "Gaussian blob rejects / reshapes its own dimension", D=D)
         expect_value_error(rec, lambda: nf.GeneralNonlinearFun(D, N, derivative_operator=DO, dealiasing_fraction=2 / 3, scale_list=(1.0, 2.0)), "C20/guard/general_nonlinear_scale_list",
                            "scale list of the wrong length accepted", D=D)
         expect_value_error(rec, lambda: ex.stepper.generic.GeneralNonlinearStepper(D, 2.5, N, 0.05, nonlinear_coefficients=(1.0, 2.0)), "C20/guard/general_nonlinear_coefficients",
